@@ -73,9 +73,17 @@ func (h *holder) block(f func()) {
 			// If we are still blocked, re-acquire. Otherwise, we just got got released
 			// (and that release used our token we gave up), and should no longer try to
 			// re-acquire.
-			if atomic.CompareAndSwapInt64(&h.status, blocked, acquired) {
-				verifYield("block.reacquire")
-				h.l.ch <- struct{}{}
+			if atomic.LoadInt64(&h.status) != blocked {
+				return
+			}
+			// The token must be back in ch before status says acquired: a concurrent
+			// release that observes acquired takes a token out of ch, and if ours is
+			// not there yet it takes the token of another, still running, holder.
+			h.l.ch <- struct{}{}
+			verifYield("block.reacquire")
+			if !atomic.CompareAndSwapInt64(&h.status, blocked, acquired) {
+				// Released while we were waiting for the token; give it back.
+				<-h.l.ch
 			}
 		}()
 	}
